@@ -229,7 +229,9 @@ SEQ_CONTENTS = ['', '1', '12345678901234567890123456789012345678901234567890', '
 SAVE_KINDS = ('svg', 'png', 'eps', 'pdf', 'pam', 'ppm', 'xpm', 'pbm', 'xbm', 'tex', 'txt', 'ans')
 COLOUR_KINDS = ('svg', 'png', 'eps', 'pdf', 'pam', 'ppm', 'xpm')
 BAD_COLOURS = ['', '#12', '#ggg', 'nope', (1, 2), (256, 0, 0), (0, 0, 0, 2.0), '#12345', (1, 2, 3, 4, 5), '#', (-1, 0, 0), '##123', '###fff', '##112233',
-               '#1234567', '# 123', '12 3', '#-12', (0, 0), (1.5, 300, 0), '0x123']
+               '#1234567', '# 123', '12 3', '#-12', (0, 0), (1.5, 300, 0), '0x123',
+               # four-channel tuples with a channel out of range
+               (256, 0, 0, 255), (-1, 0, 0, 128), (300, 5, 5, 0.5), (0, 256, 0, 1.0), (0, 0, 999, 0), (0, 0, 0, 256), (0, 0, 0, -1), (0, 0, 0, 1.5), (0, 0, 0, -0.5)]
 
 
 TWINS = [((10, 20, 30, 128), (10, 20, 30, 128.0)), ((0, 0, 0, 2), (0, 0, 0, 2.0)), ((255, 255, 255, 255), (255, 255, 255, 255.0)), ((0, 0, 0, 255), (0, 0, 0, 255.0)),
